@@ -10,6 +10,7 @@ import (
 
 	ledger "github.com/formancehq/ledger/internal"
 	"github.com/formancehq/ledger/internal/engine/command"
+	"github.com/formancehq/ledger/internal/machine"
 	"github.com/formancehq/ledger/internal/verifhook"
 	"github.com/formancehq/stack/libs/go-libs/metadata"
 )
@@ -344,21 +345,28 @@ func (s *Sched) call(ctx context.Context, c *command.Commander, r Req) (resp Res
 
 func classify(err error) string {
 	switch {
-	case command.IsConflictError(err):
+	case command.IsInvalidTransactionError(err, command.ErrInvalidTransactionCodeConflict):
 		return "conflict"
-	case command.IsInsufficientFundError(err):
+	case command.IsInvalidTransactionError(err, command.ErrInvalidTransactionCodeNoPostings):
+		return "no-postings"
+	case command.IsInvalidTransactionError(err, command.ErrInvalidTransactionCodeCompilationFailed):
+		return "compilation-failed"
+	case command.IsRevertError(err, command.ErrRevertTransactionCodeAlreadyReverted):
+		return "already-reverted"
+	case command.IsRevertError(err, command.ErrRevertTransactionCodeOccurring):
+		return "revert-occurring"
+	case command.IsRevertError(err, command.ErrRevertTransactionCodeNotFound):
+		return "not-found"
+	case machine.IsInsufficientFundError(err):
 		return "insufficient"
+	case command.IsErrMachine(err):
+		return "machine"
+	case command.IsSaveMetaError(err, command.ErrSaveMetaCodeTransactionNotFound), command.IsDeleteMetaError(err, command.ErrDeleteMetaCodeTransactionNotFound):
+		return "not-found"
 	}
 	msg := err.Error()
-	switch {
-	case msg == "already taken":
+	if msg == "already taken" {
 		return "ik-busy"
-	case contains(msg, "already revert"):
-		return "already-reverted"
-	case contains(msg, "revert occurring") || contains(msg, "REVERT_OCCURRING") || contains(msg, "occurring"):
-		return "revert-occurring"
-	case contains(msg, "not found") || contains(msg, "NOT_FOUND"):
-		return "not-found"
 	}
 	return "other:" + firstLine(msg)
 }
